@@ -18,25 +18,7 @@ from harness.scenarios import STD, CONSTANTS
 LEVEL = "model_checking"
 
 
-def feq_table(rs, vs, c):
-    """The equilibrium Maxwellian f_eq(r, v) = n0(r) exp(-v^2 / (2 Ti(r))) / sqrt(2 pi Ti(r)) with the tanh profiles of the model
-    (n0 = CN0 exp(-kN0 dRN0 tanh((r-rp)/dRN0)), Ti = CTi exp(-kTi dRTi tanh((r-rp)/dRTi))), written here independently of the
-    code's scalar and vector entry points."""
-    r = np.asarray(rs, dtype=float)[:, None]
-    v = np.asarray(vs, dtype=float)[None, :]
-    n0 = c.CN0 * np.exp(-c.kN0 * c.deltaRN0 * np.tanh((r - c.rp) / c.deltaRN0))
-    ti = c.CTi * np.exp(-c.kTi * c.deltaRTi * np.tanh((r - c.rp) / c.deltaRTi))
-    return n0 * np.exp(-0.5 * v * v / ti) / np.sqrt(2.0 * np.pi * ti)
-
-
-def general_constants():
-    """constants in general position (the defaults make CTi = 1, kTe = kTi, ...: a dropped factor or a twin constant is invisible there)"""
-    from pygyro.initialisation.constants import Constants
-    c = Constants()
-    c.CTi, c.CTe, c.kTe, c.deltaRTe, c.deltaRTi, c.kTi = 0.8, 1.3, 0.4, 1.2, 1.6, 0.3
-    c.rp = 6.5
-    c.getCN0()
-    return c
+from harness.physics import feq_table, general_constants   # noqa: E402,F401
 
 
 def lcm(a, b):
